@@ -55,7 +55,7 @@ func rootKey(r ssa.Value) string {
 	}
 	fn := ""
 	if p := r.Parent(); p != nil {
-		fn = FuncName(p)
+		fn = uniqFuncName(p)
 	}
 	switch x := r.(type) {
 	case *ssa.Parameter:
@@ -68,6 +68,19 @@ func rootKey(r ssa.Value) string {
 		return fn + "·" + x.Name() + "(" + x.Comment + ")"
 	}
 	return fn + "·" + r.Name()
+}
+
+// uniqFuncName distinguishes a transparent function (which shares its host's FuncName) in value keys.
+func uniqFuncName(fn *ssa.Function) string {
+	if IsTransparent(fn) {
+		return FuncName(fn) + "«" + OrdinalName(fn) + "»"
+	}
+	for a := fn.Parent(); a != nil; a = a.Parent() {
+		if IsTransparent(a) {
+			return FuncName(fn) + "«" + OrdinalName(fn) + "»"
+		}
+	}
+	return FuncName(fn)
 }
 
 // Key is a canonical string for path equality.
